@@ -81,6 +81,39 @@ def register(T, repo):
                 'msg': StrS(name='msg'), 'repl': StrS(name='repl')},
         result=lambda A: AnyS('message'),
         ensures=[('offset-length-select-match', cm_post)], pure=True))
+
+    # ----------- create_single_letter_matches.<locals>.f (the cover test;
+    # the function table keeps the LAST nested def of that name)
+    # hits = [(B[j], E[j]) : j < n] as two ghost arrays; result:
+    #   f(m)  <=>  exists j < n:  B[j] <= m.start(0) < E[j]
+    COV = CH + 'create_single_letter_matches.<locals>.f'
+
+    def cov_ghost(ex, st, mode, vals):
+        return {'B': z3.Const('hitB_%d' % sym.uid(), sym.A),
+                'E': z3.Const('hitE_%d' % sym.uid(), sym.A)}
+
+    def hits_spec(G):
+        return ListS(TupleS(IntS(name='beg'), IntS(name='end')), None,
+                     'hits', indexed=lambda i, e: And(
+                         zint(e[0]) == z3.Select(G['B'], zint(i)),
+                         zint(e[1]) == z3.Select(G['E'], zint(i))))
+
+    def covered(A, upto, s):
+        j = z3.Int('j_%d' % sym.uid())
+        return z3.Exists([j], And(0 <= j, j < zint(upto),
+                                  z3.Select(A['B'], j) <= s,
+                                  s < z3.Select(A['E'], j)))
+    c = T.add(FContract(
+        COV, ghosts=cov_ghost,
+        params=lambda G: {'m': MatchObjS()},
+        free=lambda G: {'hits': hits_spec(G)},
+        result=lambda A: BoolS('covered'),
+        ensures=[('covered-iff-start-inside-a-hit', lambda A, r: zbool(r) ==
+                  covered(A, A['hits'].length(),
+                          zint(A['m'].fields['_start'])))],
+        pure=True))
+    c.loop(0).invs.append(('no-earlier-hit-covers', lambda E: Not(covered(
+        E, E['idx0'], zint(E['m'].fields['_start'])))))
     return T
 
 
@@ -589,6 +622,16 @@ def register_json(T, repo):
     lp2 = c.loop(2)
     lp2.body_post.append(('offset-and-length-typed', lambda E0, E1: typed(
         None, None, E1['m'])))
+
+    def shifted(E0, E1):
+        # C14: the offset of a match is shifted by the length of the text
+        # submitted before ITS part (the total at the time of the shift)
+        m0, m1 = E0['m'], E1['m']
+        if not (isinstance(m0, JVal) and isinstance(m1, JVal)):
+            return False
+        c0, c1 = m0.child('offset')[1], m1.child('offset')[1]
+        return num(c1) == num(c0) + zint(seq_len(E0['plain_tot']))
+    lp2.body_post.append(('offset-shifted-by-text-before-part', shifted))
     lp2.on_exit = lambda E, st: refine_list(st.ex, st, E['matches'], typed)
     lp2.shapes['m'] = lambda E: AnyS()
     for k in (0, 1):
